@@ -29,6 +29,7 @@ import (
 	"encoding/hex"
 	"encoding/json"
 	"fmt"
+	"io"
 	"io/fs"
 	"os"
 	"os/exec"
@@ -268,6 +269,16 @@ type proc struct {
 	exit       int
 	killed     bool
 	done       chan struct{}
+	pipeR      *os.File // read end of a full stdout pipe (post-session cases)
+}
+
+// drain: somebody finally reads the run's stdout.
+func (p *proc) drain() {
+	if p.pipeR != nil {
+		r := p.pipeR
+		p.pipeR = nil
+		go func() { io.Copy(io.Discard, r); r.Close() }()
+	}
 }
 
 type world struct {
@@ -277,11 +288,22 @@ type world struct {
 	procs    []*proc
 	eventLog string
 	gateDir  string
+	fullPipe bool // the next start gets a stdout pipe that is already full and that nobody reads
 	lingerMS int // how long an orphaned simulator (ssh child of a killed run) stays alive
 	wrap     []string // command prefix for the next start (strace …)
 }
 
 var devices = []string{"dev", "other"}
+
+// makeDiff turns the first device into one whose configuration differs from what Netspoc wants
+// (another default route): a compare then reports `comp: *** device changed ***`, which do-approve
+// prints on stdout after the device session and before it writes RES:/END: and the status file.
+func (w *world) makeDiff() {
+	d := devices[0]
+	os.WriteFile(filepath.Join(w.dir, "policies/p1/code", d), []byte("route inside 0.0.0.0 0.0.0.0 10.1.2.4\n"), 0644)
+	os.WriteFile(filepath.Join(w.dir, "scenario-"+d), []byte(scenarioFor(d)+
+		"# write term\ninterface Ethernet0/0\n nameif inside\nroute inside 0.0.0.0 0.0.0.0 10.1.2.3\n"), 0644)
+}
 
 func newWorld(dir, self string, bins map[string]string, rng *RNG) *world {
 	w := &world{dir: dir, self: self, bins: bins, eventLog: filepath.Join(dir, "events"), gateDir: filepath.Join(dir, "gates")}
@@ -348,9 +370,38 @@ func (w *world) start(v inv, hold int, delayUS int) *proc {
 	}
 	cmd.Stdout = &p.stdout
 	cmd.Stderr = &p.stderr
+	var pipeW *os.File
+	if w.fullPipe {
+		// like `do-approve compare dev | less` with nobody pressing a key: the first line the run
+		// prints on stdout blocks it until somebody reads (proc.drain)
+		w.fullPipe = false
+		rd, wr, err := os.Pipe()
+		if err == nil {
+			fd := int(wr.Fd())
+			syscall.SetNonblock(fd, true)
+			chunk := make([]byte, 4096)
+			for n := 4096; n >= 1; n /= 4096 {
+				for {
+					if _, err := syscall.Write(fd, chunk[:n]); err != nil {
+						break
+					}
+				}
+				if n == 1 {
+					break
+				}
+			}
+			syscall.SetNonblock(fd, false)
+			cmd.Stdout = wr
+			pipeW, p.pipeR = wr, rd
+		}
+	}
 	p.cmd = cmd
 	p.start = time.Now()
-	if err := cmd.Start(); err != nil {
+	err := cmd.Start()
+	if pipeW != nil {
+		pipeW.Close()
+	}
+	if err != nil {
 		p.exit = -1
 		p.end = time.Now()
 		close(p.done)
@@ -1358,6 +1409,103 @@ func (r *runner) runCase(c c12Case) {
 				r.fail("lock_not_released_after_kill", fmt.Sprintf("run %d (%s) after SIGKILL of the holder: exit=%d stderr=%q", p.id, p.v, p.exit, p.stderr.String()), c, nil)
 			}
 		}
+	case "post-session":
+		// Invs[0] holder `do-approve compare` of a device that differs from Netspoc's configuration, its
+		// stdout a pipe that is full and that nobody reads: after the device session it blocks printing
+		// `comp: *** device changed ***` — before RES:/END: are appended to the history and before the
+		// status file is read, modified and written.  Invs[1..n-2] contenders started in that phase,
+		// judged as in every other phase; then the pipe is read, the holder finishes; last: a run after it.
+		w.makeDiff()
+		w.fullPipe = true
+		h := w.start(cx.Invs[0], -1, 0)
+		defer h.drain()
+		sessionOver := func() bool {
+			for _, e := range w.events() {
+				if e.id == h.id && (e.kind == "BYE" || e.kind == "END") {
+					return true
+				}
+			}
+			return false
+		}
+		for i := 0; i < 12000 && !sessionOver(); i++ {
+			select {
+			case <-h.done:
+				i = 12000
+			default:
+				time.Sleep(time.Millisecond)
+			}
+		}
+		before := w.quiescent()
+		select {
+		case <-h.done:
+			// the holder did not block: no post-session phase to test (e.g. nothing was printed)
+			r.fail("holder_did_not_block_on_stdout", fmt.Sprintf("run 0 (%s) ended although nobody reads its output: exit=%d stderr=%q", h.v, h.exit, h.stderr.String()), c, nil)
+			return
+		default:
+		}
+		if !sessionOver() {
+			hung(h)
+			return
+		}
+		sched = append(sched, "P0")
+		var cs []*proc
+		last := len(cx.Invs) - 1
+		for i := 1; i < last; i++ {
+			p := w.start(cx.Invs[i], -1, 0)
+			cs = append(cs, p)
+			if p.v.IsEarly {
+				sched = append(sched, fmt.Sprintf("X%d", 10*p.id+p.v.EarlyK))
+			} else {
+				sched = append(sched, fmt.Sprintf("R%d", p.id))
+			}
+			if !c.Par {
+				if !p.wait(long) {
+					hung(p)
+					return
+				}
+			}
+		}
+		for _, p := range cs {
+			if !p.wait(long) {
+				hung(p)
+				return
+			}
+		}
+		select {
+		case <-h.done:
+			r.fail("holder_did_not_block_on_stdout", fmt.Sprintf("run 0 (%s) ended while the contenders ran although nobody reads its output", h.v), c, nil)
+			return
+		default:
+		}
+		after := w.snapshot()
+		for _, p := range cs {
+			if p.v.IsEarly {
+				r.checkEarly(c, w, p)
+			} else {
+				r.checkLoser(c, w, p)
+			}
+		}
+		if d := diffSnap(before, after); len(d) > 0 {
+			r.fail("loser_wrote_files", fmt.Sprintf("runs started after the holder's device session, while it had still to write history and status, changed %v", d), c, nil)
+		}
+		h.drain()
+		if !h.wait(long) {
+			hung(h)
+			return
+		}
+		sched = append(sched, "R0")
+		f := w.start(cx.Invs[last], -1, 0)
+		if !f.wait(long) {
+			hung(f)
+			return
+		}
+		sched = append(sched, fmt.Sprintf("R%d", f.id))
+		if f.exit != 0 || strings.Contains(f.stderr.String(), "Approve in progress") {
+			r.fail("lock_not_released_after_exit", fmt.Sprintf("run %d (%s) after the holder's exit: exit=%d stderr=%q", f.id, f.v, f.exit, f.stderr.String()), c, nil)
+		}
+		r.mu.Lock()
+		r.res.Count("holder-blocked-post-session")
+		r.mu.Unlock()
 	case "fork-window":
 		// F-C12a, directed: Invs[0] the holder, run under strace with every execve entry delayed, so that
 		// the child it forks for its session stays between fork and exec for a while; SIGKILL of the
@@ -1608,7 +1756,24 @@ func (r *runner) genCase(rng *RNG) c12Case {
 	c := c12Case{Seed: rng.Next()}
 	dev := "dev"
 	same := func() inv { return genInv(rng, dev, "BASE") }
-	switch k := rng.Intn(100); {
+	switch k := rng.Intn(112); {
+	case k >= 100:
+		c.Kind = "post-session"
+		c.Invs = []inv{{Front: "do-approve", Action: "compare", Dev: dev, Arg: dev, Cwd: Pick(rng, []string{".", "policies"})}}
+		n := 1 + rng.Intn(3)
+		for i := 0; i < n; i++ {
+			c.Invs = append(c.Invs, loserSpelling(rng, same()))
+		}
+		if rng.Chance(25) {
+			c.Invs = append(c.Invs, genEarly(rng, dev))
+		}
+		c.Par = rng.Chance(35)
+		fin := same()
+		fin.Front, fin.Action, fin.LogDir = "drc", "compare", false // (a compare of a DIFF device by do-approve leaves the status file alone)
+		if fin.Arg == dev && fin.Cwd != "policies/p1/code" {
+			fin.Arg, fin.Cwd = "policies/current/code/"+dev, "."
+		}
+		c.Invs = append(c.Invs, fin)
 	case k < 38:
 		c.Kind = "gated-contend"
 		c.Phase = rng.Intn(r.phases) // (the final `exit` is not counted: it is not awaited)
@@ -1898,6 +2063,16 @@ func run(ctx *Ctx) *Result {
 		c12Case{Kind: "gated-kill", Phase: 1, Seed: 14, Invs: []inv{dv("drc", "approve", "policies/current/code/dev", ".", true),
 			dv("do-approve", "approve", "dev", ".", false)}},
 	)
+	// the phase after the device session: holder blocked on its output before history and status are
+	// complete; contenders of every kind and spelling
+	pk := []inv{dv("do-approve", "approve", "dev", ".", false), dv("do-approve", "compare", "dev", "policies", false),
+		dv("drc", "approve", "policies/current/code/dev", ".", true), dv("drc", "compare", "policies/p1/code/ipv6/dev", ".", false),
+		dv("drc", "compare", "code/dev", "policies/p1", true), dv("do-approve", "compare", "dev/", ".", false)}
+	for i := 0; i < ctx.N(3, 12); i++ {
+		cases = append(cases, c12Case{Kind: "post-session", Seed: uint64(5000 + i), Par: i%3 == 2,
+			Invs: []inv{dv("do-approve", "compare", "dev", ".", false), pk[i%6], pk[(i+2)%6], pk[(2*i+3)%6],
+				dv("drc", "compare", "policies/current/code/dev", ".", false)}})
+	}
 	// F-C12a, directed (needs strace): holder killed while its child is between fork and exec
 	nfw := ctx.N(2, 6)
 	if v, err := strconv.Atoi(os.Getenv("VH_C12_FORKWINDOW")); err == nil && v > 0 {
